@@ -33,6 +33,16 @@ var (
 	}
 )
 
+// template data aimed at the custom template of jwktpl ("extensions": user extensions)
+var udTplPool = []string{
+	`{"extensions":[]}`, `{"extensions":null}`, `{"extensions":{}}`, `{"extensions":[{}]}`,
+	`{"extensions":[{"id":"1.2.3.4.1","value":"BAEB"}]}`, `{"extensions":[{"id":"1.2.3.4.1"}]}`,
+	`{"extensions":[{"id":"not-an-oid","value":"BAEB"}]}`, `{"extensions":[{"id":"1.2.3.4.2","value":"!!"}]}`,
+	`{"extensions":[{"id":"1.2.3.4.1","critical":"yes","value":"BAEB"}]}`, `{"extensions":[1,2]}`,
+	`{"extensions":[{"id":"1.3.6.1.4.1.37476.9000.64.1","value":"MAA="},{"id":"1.3.6.1.4.1.37476.9000.64.1","value":"MAA="}]}`,
+	`{"extensions":[{"id":"1.2.3.4.3","critical":true,"value":"BAEB"},{"id":"1.3.6.1.4.1.37476.9000.64.1","value":"MAA="}]}`,
+}
+
 func classOf(s string) byte {
 	dns, ips, emails, _ := x509util.SplitSANs([]string{s})
 	switch {
@@ -147,7 +157,12 @@ func genCase(r *c.Rng) *Case {
 		k.Prov = "nebula"
 		k.NebHost = r.Intn(len(nebSpecs))
 	case 13:
-		k.Prov = "k8ssa"
+		k.Prov = c.Pick(r, []string{"k8ssa", "acme"})
+	case 14, 15:
+		k.Prov = "jwkwh"
+		k.WHE = c.Pick(r, []string{"allow", "allow", "allow", "deny"})
+		k.WHA = c.Pick(r, []string{"allow", "allow", "allow", "deny"})
+		k.WHData = r.Intn(len(whDataPool))
 	default:
 		k.Prov = "jwk"
 	}
@@ -307,6 +322,9 @@ func genCase(r *c.Rng) *Case {
 	if r.Chance(1, 40) {
 		k.BadSig = true
 	}
+	if k.Auth == 0 && (k.Prov == "jwk" || k.Prov == "x5c" || k.Prov == "nebula" || k.Prov == "oidc") && r.Chance(1, 6) {
+		k.RA = true
+	}
 	if r.Chance(1, 12) {
 		k.Key = c.Pick(r, []string{"ed", "ed", "rsa1024"})
 	}
@@ -318,9 +336,12 @@ func genCase(r *c.Rng) *Case {
 	}
 	// user template data
 	if k.Prov == "jwktpl" {
-		if r.Chance(4, 5) {
+		switch r.Intn(5) {
+		case 0, 1, 2:
 			k.HasUExt = true
 			k.UExt = genExts(r, 4)
+		case 3: // arbitrary / malformed template data reaching a template that prints it
+			k.UD = c.Pick(r, append(append([]string{}, udPool...), udTplPool...))
 		}
 	} else if r.Chance(1, 2) {
 		k.UD = c.Pick(r, udPool)
@@ -399,6 +420,30 @@ func corner() []*Case {
 		{Prov: "nebula", NebHost: 0, Sub: "evil.example.com", SANs: []string{"evil.example.com"}, CN: "evil.example.com", Key: "ec"},
 		{Prov: "nebula", NebHost: 0, Sub: "host-a.neb", SANs: []string{"evil.example.com"}, DNS: []string{"evil.example.com"}, Key: "ec"},
 		{Prov: "nebula", NebHost: 0, Sub: "host-a.neb", NoSANs: true, Cnf: "bad", Key: "ec"},
+		{Prov: "jwktpl", Sub: "svc", SANs: []string{"a.example.com"}, UD: `{"extensions":"x"}`, Key: "ec"},
+		{Prov: "jwktpl", Sub: "svc", SANs: []string{"a.example.com"}, UD: `{"extensions":[{"id":"not-an-oid","value":"BAEB"}]}`, Key: "ec"},
+		{Prov: "jwktpl", Sub: "svc", SANs: []string{"a.example.com"}, UD: `[1,2,3]`, Key: "ec"},
+		{Prov: "jwktpl", Sub: "svc", SANs: []string{"a.example.com"}, UD: `{"extensions":[{"id":"1.2.3.4.1"}]}`, Key: "ec"},
+		// RA mode (stepcas in front of the issuing CA)
+		{RA: true, Prov: "jwk", Sub: "svc", SANs: []string{"a.example.com", "b.example.com"}, CN: "svc", DNS: []string{"a.example.com", "b.example.com"}, Key: "ec"},
+		{RA: true, Prov: "jwk", Sub: "svc", SANs: []string{"a.example.com", "b.example.com"}, CN: "b.example.com", Key: "ec"},
+		{RA: true, Prov: "jwk", Sub: "svc", SANs: []string{"a.example.com", "10.0.0.1"}, CN: "", IPs: []string{"10.0.0.1"}, DNS: []string{"a.example.com"}, Key: "ec"},
+		{RA: true, Prov: "jwk", Sub: "a.example.com", NoSANs: true, CN: "a.example.com", Key: "ec"},
+		{RA: true, Prov: "jwk", Sub: "svc", SANs: []string{"a.example.com"}, DNS: []string{"a.example.com", "evil.example.com"}, Key: "ec"},
+		{RA: true, Prov: "x5c", Sub: "svc", SANs: []string{"a.example.com"}, CN: "svc", Key: "ec"},
+		{RA: true, Prov: "oidc", Sub: "1234", Email: "a@example.com", CN: "whatever", DNS: []string{"evil.example.com"}, Key: "ec"},
+		{RA: true, Prov: "nebula", NebHost: 0, Sub: "host-a.neb", NoSANs: true, CN: "host-a.neb", Key: "ec"},
+		// webhooks
+		{Prov: "jwkwh", WHE: "allow", WHA: "allow", WHData: 1, Sub: "svc", SANs: []string{"a.example.com"}, Key: "ec"},
+		{Prov: "jwkwh", WHE: "allow", WHA: "allow", WHData: 2, Sub: "svc", SANs: []string{"a.example.com"}, Key: "ec"},
+		{Prov: "jwkwh", WHE: "deny", WHA: "allow", Sub: "svc", SANs: []string{"a.example.com"}, Key: "ec"},
+		{Prov: "jwkwh", WHE: "allow", WHA: "deny", WHData: 3, Sub: "svc", SANs: []string{"a.example.com"}, Key: "ec"},
+		{Prov: "jwkwh", WHE: "deny", WHA: "allow", Sub: "svc", SANs: []string{"a.example.com"}, DNS: []string{"b.example.com"}, Key: "ec"},
+		{Prov: "jwkwh", WHE: "allow", WHA: "deny", Sub: "svc", SANs: []string{"bücher.example"}, Key: "ec"},
+		// ACME: names come from the order; the provisioner extension clause
+		{Prov: "acme", Sub: "a.example.com", SANs: []string{"a.example.com"}, CN: "a.example.com", DNS: []string{"a.example.com"}, Key: "ec"},
+		{Prov: "acme", Sub: "a.example.com", SANs: []string{"a.example.com", "10.0.0.1"}, CExt: forged, UD: udPool[0], Key: "ec"},
+		{Auth: 2, Prov: "acme", Sub: "a.example.com", SANs: []string{"a.example.com"}, Key: "ec"},
 		// K8sSA
 		{Prov: "k8ssa", Sub: "builder", CN: "anything", DNS: []string{"any.example.com"}, IPs: []string{"10.9.9.9"}, Key: "ec"},
 		{Prov: "k8ssa", Sub: "builder", Key: "ec"},
